@@ -68,6 +68,7 @@ type Thread struct {
 	Daemon bool // may stay blocked at the end of an execution without being a deadlock
 	rendez bool // woken as the receiving side of an unbuffered hand-off
 	vc     vclock
+	lastRun int     // step at which the thread last held the baton
 	stack  []string // tracked methods this thread is inside (outermost first)
 }
 
@@ -134,6 +135,8 @@ type Sched struct {
 	timerVC    map[*vtime.Timer]vclock
 	envByID    map[int]*Env
 	spawnVC    vclock // clock a thread started by the environment (timer callback) inherits
+	// OnEnv is called just before an environment event takes place.
+	OnEnv func(e *Env)
 	// TimerGate decides whether a timer may fire now (harness timing constraints).
 	TimerGate func(t *vtime.Timer) bool
 }
@@ -402,6 +405,21 @@ func Leave(depth int) {
 	}
 }
 
+// OthersBlocked reports whether every thread except the named one is finished or
+// parked on an operation that is not enabled (to be called from scheduler callbacks).
+func OthersBlocked(except string) bool {
+	s := S
+	if s == nil {
+		return false
+	}
+	for _, t := range s.threads {
+		if t.Name != except && s.threadEnabled(t) {
+			return false
+		}
+	}
+	return true
+}
+
 // LiveNamed counts the threads whose name starts with prefix and that have not finished.
 func LiveNamed(prefix string) int {
 	n := 0
@@ -458,6 +476,9 @@ func (m *Mutex) Unlock() {
 }
 
 // ---- environment ---------------------------------------------------------------------------------------
+
+// Timer returns the timer behind a timer event (nil for harness events).
+func (e *Env) Timer() *vtime.Timer { return e.timer }
 
 // AddEnv registers an environment event.
 func AddEnv(name string, once bool, enabled func() bool, fire func()) *Env {
@@ -684,10 +705,16 @@ func (s *Sched) loop(mainT *Thread) {
 			en = append(en, s.cur.ID)
 			runningEnabled = true
 		}
+		first := len(en)
 		for _, t := range s.threads {
 			if t != s.cur && s.threadEnabled(t) {
 				en = append(en, t.ID)
 			}
+		}
+		if FairOrder {
+			// least recently run first (ties: lower id)
+			rest := en[first:]
+			sort.SliceStable(rest, func(i, j int) bool { return s.threads[rest[i]].lastRun < s.threads[rest[j]].lastRun })
 		}
 		var envIDs []int
 		for _, e := range s.envs {
@@ -742,12 +769,16 @@ func (s *Sched) loop(mainT *Thread) {
 			for _, e := range s.envs {
 				if e.ID == id {
 					e.fired = true
+					if s.OnEnv != nil {
+						s.OnEnv(e)
+					}
 					e.Fire()
 				}
 			}
 			continue
 		}
 		t := s.threads[id]
+		t.lastRun = step
 		s.dispatch(t)
 	}
 }
@@ -864,6 +895,10 @@ func cost(p Point) int {
 	}
 	return 0
 }
+
+// FairOrder makes the canonical choice at a blocking point the least recently run
+// enabled thread (round robin) instead of the lowest thread id.
+var FairOrder bool
 
 // DeviationCost selects the cost model. false (preemption bounding): only taking
 // the processor from a runnable thread, or an environment event occurring while
